@@ -6,7 +6,7 @@ use std::cmp::Ordering;
 use hvcommon::{Value, guarded, json};
 use lattices::ght::colt::ColtForestNode;
 use lattices::ght::lattice::{DeepJoinLatticeBimorphism, GhtCartesianProductBimorphism};
-use lattices::ght::{GeneralizedHashTrieNode, GhtPrefixIter};
+use lattices::ght::{GeneralizedHashTrieNode, GhtGet, GhtPrefixIter};
 use lattices::{GhtType, IsBot, LatticeBimorphism, Merge};
 use variadics::variadic_collections::VariadicHashSetStd;
 use variadics::{var_args, var_expr, var_type};
@@ -32,6 +32,11 @@ trait Trie: Clone + Default {
     const NKO: usize;
     /// ColtForestNode::force on a clone: rows of the forced trie (Some) or None (inner nodes)
     fn force(&self) -> Value;
+    /// ColtForestNode::force_drain (mutating): rows of the forced trie or None
+    fn force_drain(&mut self) -> Value;
+    /// GhtGet::get_mut(&k) then GeneralizedHashTrieNode::drain() on that child (public API):
+    /// null if there is no such child, "inner" if the child is not a leaf, else the drained rows
+    fn child_drain(&mut self, k: u32) -> Value;
 }
 
 fn sorted(mut rows: Vec<Row>) -> Vec<Row> {
@@ -47,11 +52,12 @@ macro_rules! impl_trie {
     ($ty:ty; $($i:tt $v:ident),+; $( $plen:literal => ($($pi:tt),*) ),* ;
      join $jty:ty, ($($jv:ident),+); cart $cty:ty, $nko:literal, ($($cv:ident),+) ) => {
         impl_trie!($ty; $($i $v),+; $( $plen => ($($pi),*) ),* ;
-                   join $jty, ($($jv),+); cart $cty, $nko, ($($cv),+); force |_t| json!("unsupported"));
+                   join $jty, ($($jv),+); cart $cty, $nko, ($($cv),+); force |_t| json!("unsupported");
+                   force_drain |_t| json!("unsupported"));
     };
     ($ty:ty; $($i:tt $v:ident),+; $( $plen:literal => ($($pi:tt),*) ),* ;
      join $jty:ty, ($($jv:ident),+); cart $cty:ty, $nko:literal, ($($cv:ident),+);
-     force |$ft:ident| $fbody:expr ) => {
+     force |$ft:ident| $fbody:expr; force_drain |$dt:ident| $dbody:expr ) => {
         impl Trie for $ty {
             fn insert(&mut self, r: &[u32]) -> bool {
                 GeneralizedHashTrieNode::insert(self, var_expr!($(r[$i]),+))
@@ -101,6 +107,22 @@ macro_rules! impl_trie {
                 let $ft = self;
                 $fbody
             }
+            fn force_drain(&mut self) -> Value {
+                let $dt = self;
+                $dbody
+            }
+            fn child_drain(&mut self, k: u32) -> Value {
+                match GhtGet::get_mut(self, &k) {
+                    None => json!({"optrows": null}),
+                    Some(c) => match c.drain() {
+                        None => json!("inner"),
+                        Some(it) => {
+                            let rows: Vec<Row> = it.map(|var_args!($($v),+)| vec![$($v),+]).collect();
+                            json!({"optrows": sorted(rows)})
+                        }
+                    },
+                }
+            }
         }
     };
 }
@@ -129,6 +151,11 @@ impl_trie!(K3V1; 0 a, 1 b, 2 c, 3 d; 0 => (), 1 => (0), 2 => (0, 1), 3 => (0, 1,
 impl_trie!(K0V2; 0 a, 1 b; 0 => (), 1 => (0), 2 => (0, 1);
            join var_type!(u32, u32, u32, u32), (a, b, c, d); cart C4, 2, (a, b, c, d);
            force |t| match ColtForestNode::force(t.clone()) {
+               None => json!({"optrows": null}),
+               Some(f) => json!({"optrows": sorted(f.recursive_iter().map(|var_args!(a, b)| vec![*a, *b]).collect()),
+                                 "forced_height": GeneralizedHashTrieNode::height(&f)}),
+           };
+           force_drain |t| match ColtForestNode::force_drain(t) {
                None => json!({"optrows": null}),
                Some(f) => json!({"optrows": sorted(f.recursive_iter().map(|var_args!(a, b)| vec![*a, *b]).collect()),
                                  "forced_height": GeneralizedHashTrieNode::height(&f)}),
@@ -184,6 +211,8 @@ fn history<T: Trie>(ops: &[Value]) -> Value {
             "join" => json!({"rows": sorted(regs[w].join(&regs[1 - w]))}),
             "cart" => json!({"rows": sorted(regs[w].cart(&regs[1 - w]))}),
             "force" => regs[w].force(),
+            "force_drain" => regs[w].force_drain(),
+            "child_drain" => regs[w].child_drain(op[2].as_u64().unwrap() as u32),
             "height" => json!({"n": regs[w].height()}),
             "is_bot" => json!({"b": regs[w].is_bot()}),
             _ => json!({"bad_op": name}),
